@@ -83,6 +83,9 @@ func checkC04(rep *Report, rng *Rng, tier string) {
 			// record offsets must follow the stored form; byte totals are those of the stored values (API-level
 			// oracles only: the models do not see this configuration's totals)
 			d.CBSet = cbCodec
+			if i%10 == 6 {
+				d.CBSet = cbCodecRaw
+			}
 			for j := range ops {
 				if ops[j].K == "tot" {
 					ops[j].K = "len"
